@@ -21,16 +21,13 @@ ASSUMPTIONS = [
     "buffer are compared leniently (on-disk content between the model's flush pointer and the full file) and counted as unmodelled",
 ]
 PARTIAL = [
-    "C12_split_complete_partial: completeness of the split over the ON-DISK content at proving time (the pinned prove() does not flush; "
-    "C12_cex_unflushed_tail); full strength under Cfg.flushAtProve (C12_split_complete_of_flush)",
     "C12_split_ok_partial: the split succeeds for histories whose equations and call arguments/results live in the current context and "
-    "whose calls have at least one LinComb argument or result (C12_cex_global_one, C12_cex_uncopied_bool, C12_cex_empty_block)",
+    "whose calls have at least one LinComb argument or result (C12_cex_global_one, C12_cex_uncopied_bool_split, C12_cex_empty_block)",
     "C12_digest_partial: 'different signature whenever the equations differ' relative to injectivity of the digest parameter H "
     "(C12_cex_digest_collision: false for a constant H)",
-    "C12_glue_equal_partial: pairwise equal values for calls whose one-term arguments/results have coefficient 1 "
-    "(C12_cex_glue_coefficient); full strength under Cfg.unitCoeff (C12_glue_equal_of_unit)",
     "C12_glue_lists_all_partial: the blocks list every argument and result of class LinComb (C12_cex_uncopied_bool: LinCombBool / "
     "LinCombFxp leaves are not listed)",
+    "C12_split_complete_partial / C12_glue_equal_partial also cover the code before the two fix: commits (Cfg with either switch off)",
 ]
 TRUSTED_EXTRA = ["harness/worker_qap.py (records the backend-level trace by wrapping the backend's module-level functions from outside), "
                  "the text-level equation evaluator and multiset comparison in harness/props/c12.py, the stub qaptools executables"]
